@@ -362,6 +362,12 @@ def synth_corpus(repo):
         doc = with_part(doc, "ppt/media/" + base, jpeg(640, 480))
         doc = with_part(doc, "ppt/media/" + base.capitalize(), jpeg(320, 200))
         doc = with_part(doc, "ppt/media/" + base.swapcase(), jpeg(111, 222))
+        # ... enough spellings that "the first / the last one in set order" differs between two hash seeds
+        letters = [i for i, c in enumerate(base) if c.isalpha()]
+        for k, i in enumerate(letters[:6]):
+            spelling = base[:i].lower() + base[i].upper() + base[i + 1:].lower()
+            if spelling not in (base, base.capitalize(), base.swapcase(), odd):
+                doc = with_part(doc, "ppt/media/" + spelling, jpeg(50 + k, 70 + k))
         out["c06_case_variant_members.pptx"] = doc
     except Exception:  # noqa -- fixture missing / shaped differently: the corpus simply lacks this document
         pass
@@ -635,6 +641,163 @@ def _report(new, n, note=""):
             "observed": f"{kind} {detail}", "all_new_mismatches": new[:10]}
 
 
+FRAME_WORKER = r'''
+import sys, io, json, glob, hashlib, logging, dataclasses, os, copy, time, inspect
+logging.disable(logging.CRITICAL)
+repo, synth_dir, cls_name, meth = sys.argv[1:5]
+sys.path.insert(0, repo)
+import sharepoint2text
+
+def snap(o, depth=0, seen=None):
+    """Everything reachable from an object except read positions of streams (instance __dict__ entries beyond the declared fields included)."""
+    seen = seen if seen is not None else set()
+    if depth > 12:
+        return "..."
+    if isinstance(o, io.BytesIO):
+        return ["BytesIO", hashlib.sha256(o.getvalue()).hexdigest()]
+    if isinstance(o, (str, bytes, int, float, bool, type(None))):
+        return repr(o)
+    if id(o) in seen:
+        return "<cycle>"
+    seen = seen | {id(o)}
+    if isinstance(o, (list, tuple)):
+        return [type(o).__name__] + [snap(x, depth + 1, seen) for x in o]
+    if isinstance(o, dict):
+        return ["dict"] + [[snap(k, depth + 1, seen), snap(v, depth + 1, seen)] for k, v in o.items()]
+    if isinstance(o, (set, frozenset)):
+        return ["set"] + sorted(json.dumps(snap(x, depth + 1, seen)) for x in o)
+    d = getattr(o, "__dict__", None)
+    if isinstance(d, dict):
+        return [type(o).__name__] + [[k, snap(v, depth + 1, seen)] for k, v in d.items()]
+    return repr(type(o))
+
+def instances(o, out, seen, depth=0):
+    if id(o) in seen or depth > 8 or isinstance(o, (str, bytes, int, float, bool, type(None), io.BytesIO)):
+        return
+    seen.add(id(o))
+    if type(o).__name__ == cls_name:
+        out.append(o)
+    if isinstance(o, (list, tuple, set, frozenset)):
+        for x in o:
+            instances(x, out, seen, depth + 1)
+    elif isinstance(o, dict):
+        for x in o.values():
+            instances(x, out, seen, depth + 1)
+    elif isinstance(getattr(o, "__dict__", None), dict):
+        for x in list(vars(o).values()):
+            instances(x, out, seen, depth + 1)
+
+def variants(o):
+    """The instance itself and small perturbations the extractors do not necessarily produce but the class admits:
+    ragged / empty nested lists, emptied and duplicated list fields, None / empty optional strings."""
+    yield "as extracted", o
+    for k, v in list(vars(o).items()):
+        if isinstance(v, list) and v:
+            if all(isinstance(r, list) for r in v):
+                c = copy.deepcopy(o); rows = getattr(c, k)
+                longest = max(range(len(rows)), key=lambda i: len(rows[i]))
+                for i, r in enumerate(rows):
+                    if i != longest and r:
+                        r.pop()
+                        break
+                else:
+                    rows.append([])
+                yield f"{k}: rows of different lengths", c
+                c = copy.deepcopy(o); getattr(c, k).append([])
+                yield f"{k}: an empty row added", c
+            c = copy.deepcopy(o); setattr(c, k, [])
+            yield f"{k} emptied", c
+            c = copy.deepcopy(o); lst = getattr(c, k); lst.extend(copy.deepcopy(lst[:2])); lst.reverse()
+            yield f"{k}: elements repeated, reversed", c
+        elif isinstance(v, str) and v:
+            c = copy.deepcopy(o); setattr(c, k, "")
+            yield f"{k} = empty string", c
+
+def unit_results(f):
+    data = open(f, "rb").read()
+    return list(sharepoint2text.get_extractor(f)(io.BytesIO(data), f))
+
+files = sorted(glob.glob(synth_dir + "/*")) + [f for f in sorted(glob.glob(repo + "/sharepoint2text/tests/resources/*/*"), key=os.path.getsize) if "password" not in f]
+files = [f for f in files if os.path.isfile(f) and sharepoint2text.is_supported_file(f)]
+t0, tried, n_inst = time.time(), 0, 0
+found = None
+for f in files:
+    if time.time() - t0 > 150 or n_inst >= 40:
+        break
+    try:
+        res = unit_results(f)
+    except Exception:
+        continue
+    got = []
+    instances(res, got, set())
+    # objects handed out by listings (units, images, tables) are instances as well
+    for r in res:
+        for name in ("iterate_units", "iterate_images", "iterate_tables"):
+            try:
+                instances(list(getattr(r, name)()), got, set())
+            except Exception:
+                pass
+    for o in got[:6]:
+        n_inst += 1
+        for what, v in variants(o):
+            m = getattr(v, meth, None)
+            if m is None:
+                continue
+            before = snap(v)
+            try:
+                is_prop = isinstance(inspect.getattr_static(type(v), meth, None), property)
+                if not is_prop:
+                    if [p for p in list(inspect.signature(m).parameters.values()) if p.default is p.empty and p.kind in (p.POSITIONAL_ONLY, p.POSITIONAL_OR_KEYWORD)]:
+                        continue
+                    r1 = m()
+                    if inspect.isgenerator(r1) or hasattr(r1, "__next__"):
+                        r1 = list(r1)
+                    r2 = m()
+                    if inspect.isgenerator(r2) or hasattr(r2, "__next__"):
+                        r2 = list(r2)
+            except Exception:
+                continue
+            tried += 1
+            after = snap(v)
+            if before != after:
+                name = f[len(repo) + 1:] if f.startswith(repo + "/") else "synthetic/" + os.path.basename(f)
+                found = {"file": name, "instance": what, "class": cls_name, "method": meth,
+                         "before": json.dumps(before)[:300], "after": json.dumps(after)[:300]}
+                break
+        if found:
+            break
+    if found:
+        break
+print(json.dumps({"found": found, "tried": tried, "instances": n_inst}))
+'''
+
+
+def frame_search(repo, hint):
+    """Function-level search for an observer of a result class that modifies what it observes: instances of the class are taken
+    from the results of the corpus (and small perturbations of them: ragged / empty / repeated list fields), the method is called
+    twice, everything reachable from the instance (stream positions excepted) is compared before / after."""
+    q = hint.get("function") or ""
+    if "." not in q:
+        return None
+    cls_name, meth = q.split(".")[-2], q.split(".")[-1]
+    synth = write_synth(repo)
+    try:
+        p = subprocess.run([sys.executable, "-c", FRAME_WORKER, repo, synth, cls_name, meth], capture_output=True, text=True, timeout=400,
+                           env=dict(os.environ, PYTHONHASHSEED="1"))
+        lines = [l for l in p.stdout.splitlines() if l.startswith("{")]
+        got = json.loads(lines[-1]) if lines else {}
+    except (subprocess.TimeoutExpired, ValueError, OSError):
+        return None
+    f = got.get("found")
+    if not f:
+        return None
+    return {"reproduced": True, "target": f"{cls_name}.{meth}",
+            "inputs": {"file": f["file"], "instance": f"{cls_name} object from the extraction result ({f['instance']})", "call": f"{meth}() twice",
+                       "synthetic_generator": "replay/C06.py::synth_corpus" if f["file"].startswith("synthetic/") else None},
+            "expected": "everything reachable from the object is the same before and after the call (stream positions excepted)",
+            "observed": f"before: {f['before']} -- after: {f['after']}"}
+
+
 def find(req):
     repo = os.environ.get("VERIF_REPO", "/repo")
     hint = req.get("extra") or {}
@@ -668,6 +831,10 @@ def find(req):
         return {"reproduced": bool(mm), "mismatches": mm, "fixtures": n}
     if new:
         return _report(new, n)
+    if kind == "frame" and not req.get("list_all"):
+        r = frame_search(repo, hint)
+        if r:
+            return r
     return {"reproduced": False, "note": f"{n} documents: no unrecorded mismatch ({len(mm)} recorded)", "recorded_still_failing": len(mm)}
 
 
